@@ -423,65 +423,109 @@ func (e *Engine) resolveType(ctx *EvalCtx, text string) (types.Type, error) {
 		return types.Typ[types.Bool], nil
 	case "string":
 		return types.Typ[types.String], nil
-	case "byte":
+	case "byte", "uint8":
 		return types.Typ[types.Uint8], nil
-	case "rune":
+	case "rune", "int32":
 		return types.Typ[types.Int32], nil
 	case "float64":
 		return types.Typ[types.Float64], nil
+	case "float32":
+		return types.Typ[types.Float32], nil
 	case "int64":
 		return types.Typ[types.Int64], nil
 	case "uint64":
 		return types.Typ[types.Uint64], nil
 	case "uint32":
 		return types.Typ[types.Uint32], nil
-	case "int32":
-		return types.Typ[types.Int32], nil
-	case "uint8":
-		return types.Typ[types.Uint8], nil
+	case "uint":
+		return types.Typ[types.Uint], nil
+	case "int8":
+		return types.Typ[types.Int8], nil
+	case "int16":
+		return types.Typ[types.Int16], nil
+	case "uint16":
+		return types.Typ[types.Uint16], nil
+	case "error":
+		return types.Universe.Lookup("error").Type(), nil
+	case "any", "interface{}":
+		return types.NewInterfaceType(nil, nil), nil
+	}
+	switch {
+	case strings.HasPrefix(text, "[]"):
+		t, err := e.resolveType(ctx, text[2:])
+		if err != nil {
+			return nil, err
+		}
+		return types.NewSlice(t), nil
+	case strings.HasPrefix(text, "*"):
+		t, err := e.resolveType(ctx, text[1:])
+		if err != nil {
+			return nil, err
+		}
+		return types.NewPointer(t), nil
+	case strings.HasPrefix(text, "map["):
+		end := matchBracket(text, 3)
+		if end < 0 {
+			return nil, fmt.Errorf("bad map type %q", text)
+		}
+		k, err := e.resolveType(ctx, text[4:end])
+		if err != nil {
+			return nil, err
+		}
+		v, err := e.resolveType(ctx, text[end+1:])
+		if err != nil {
+			return nil, err
+		}
+		return types.NewMap(k, v), nil
+	case strings.HasPrefix(text, "["):
+		end := matchBracket(text, 0)
+		if end < 0 {
+			return nil, fmt.Errorf("bad array type %q", text)
+		}
+		var n int64
+		if _, err := fmt.Sscanf(text[1:end], "%d", &n); err != nil {
+			return nil, fmt.Errorf("bad array length in %q", text)
+		}
+		t, err := e.resolveType(ctx, text[end+1:])
+		if err != nil {
+			return nil, err
+		}
+		return types.NewArray(t, n), nil
 	}
 	if ctx.pkg == nil {
 		return nil, fmt.Errorf("cannot resolve type %q without a package", text)
 	}
-	tv, err := types.Eval(e.P.Fset, ctx.pkg, token.NoPos, text)
-	if err != nil {
-		// try with the package's imports by short name: pkg.Type
-		if i := strings.LastIndex(text, "."); i > 0 {
-			prefix := ""
-			base := text
-			for strings.HasPrefix(base, "[]") || strings.HasPrefix(base, "*") {
-				if strings.HasPrefix(base, "[]") {
-					prefix += "[]"
-					base = base[2:]
-				} else {
-					prefix += "*"
-					base = base[1:]
-				}
-			}
-			if j := strings.Index(base, "."); j > 0 {
-				cands := e.allPkgs()
-				if imp := e.importByAlias(ctx.pkg, base[:j]); imp != nil {
-					cands = []*types.Package{imp}
-				}
-				for _, imp := range cands {
-					if imp.Name() == base[:j] || len(cands) == 1 {
-						if obj := imp.Scope().Lookup(base[j+1:]); obj != nil {
-							t := obj.Type()
-							for k := len(prefix); k > 0; {
-								if strings.HasSuffix(prefix[:k], "[]") {
-									t = types.NewSlice(t)
-									k -= 2
-								} else {
-									t = types.NewPointer(t)
-									k--
-								}
-							}
-							return t, nil
-						}
-					}
+	// generic instantiation suffix is not supported in specs; qualified or local named type
+	if j := strings.Index(text, "."); j > 0 {
+		imp := e.importByAlias(ctx.pkg, text[:j])
+		if imp == nil {
+			for _, p := range e.allPkgs() {
+				if p.Name() == text[:j] {
+					imp = p
+					break
 				}
 			}
 		}
+		if imp == nil {
+			return nil, fmt.Errorf("cannot resolve package %q in type %q", text[:j], text)
+		}
+		obj := imp.Scope().Lookup(text[j+1:])
+		if obj == nil {
+			return nil, fmt.Errorf("%s not found in package %s", text[j+1:], imp.Path())
+		}
+		if _, ok := obj.(*types.TypeName); !ok {
+			return nil, fmt.Errorf("%q is not a type", text)
+		}
+		return obj.Type(), nil
+	}
+	if obj := ctx.pkg.Scope().Lookup(text); obj != nil {
+		if _, ok := obj.(*types.TypeName); ok {
+			return obj.Type(), nil
+		}
+		return nil, fmt.Errorf("%q is not a type", text)
+	}
+	tv, err := types.Eval(e.P.Fset, ctx.pkg, token.NoPos, text)
+	if err != nil {
 		return nil, fmt.Errorf("cannot resolve type %q: %v", text, err)
 	}
 	if !tv.IsType() {
@@ -1214,7 +1258,14 @@ func (e *Engine) evalCall(ctx *EvalCtx, x *Expr) (Val, error) {
 			return Val{}, fmt.Errorf("framed() needs a contract")
 		}
 		var gs []string
+		only := ""
+		if len(x.Args) == 1 && x.Args[0].Op == "lit" {
+			only = x.Args[0].Lit // framed("substring"): only the frame goals whose name contains it (debugging aid / finer invariants)
+		}
 		for _, g := range e.frameGoals(top, top.contract, top.entry, ctx.st, top.fn) {
+			if only != "" && !strings.Contains(g[0], only) {
+				continue
+			}
 			gs = append(gs, g[2])
 		}
 		return boolVal(sAnd(gs...)), nil
@@ -1341,6 +1392,15 @@ func (e *Engine) evalCall(ctx *EvalCtx, x *Expr) (Val, error) {
 			return r, nil
 		}
 		return Val{}, fmt.Errorf("store(array ghost, index, value)")
+	case "samearray":
+		vs, err := args()
+		if err != nil {
+			return Val{}, err
+		}
+		if len(vs) == 2 {
+			return boolVal(fmt.Sprintf("(and (= (s.arr %s) (s.arr %s)) (= (s.off %s) (s.off %s)))", vs[0].S, vs[1].S, vs[0].S, vs[1].S)), nil
+		}
+		return Val{}, fmt.Errorf("samearray(a, b)")
 	case "since":
 		// time elapsed since t on the ghost clock, at this program point (no advance)
 		vs, err := args()
